@@ -77,4 +77,16 @@ Section Dlog.
     rewrite <- !app_assoc in E. apply (msg_split_G Cd) in E. destruct E as [-> E].
     apply (msg_split_G Cd) in E. destruct E as [-> ->]. auto.
   Qed.
+  (** the dlog frame is three labelled messages with fixed-length payloads: the hypothesis of
+      [context_binding_v1_any_length_] is satisfiable (and satisfied) *)
+  Definition fixed_len_schema (n : nat) : schema := fun _ p => List.length p = n.
+  Lemma fixed_len_schema_pf n : schema_prefix_free (fixed_len_schema n).
+  Proof. intro l. apply (fixed_length_prefix_free _ n). auto. Qed.
+  Theorem dlog_frame_is_messages_ : frame_is_messages dlog_proto (fixed_len_schema (glen Cd)) 3.
+  Proof.
+    intros s a. exists [(str "public", serG Cd (dl_public s)); (str "coeff", serG Cd (dl_coeff s)); (str "point", serG Cd a)].
+    split; [|split; [reflexivity|]].
+    - repeat constructor; cbn; try apply serG_len; unfold short, W64; vm_compute; reflexivity.
+    - cbn. unfold dlog_public, enc_lmsg. cbn [fst snd]. now rewrite <- !app_assoc, app_nil_r.
+  Qed.
 End Dlog.
